@@ -101,6 +101,62 @@ def build(root, inst, k):
     return pk
 
 
+NAMED_ND = 6
+
+
+def named_projects():
+    """Projects in which the SAME relative spelling (":x") is written in two packages and means a different task in each
+    (a name reused across packages), visited in every order.  Six defined tasks:
+      1 //a:first   2 //b:mid   3 //a:last   4 //b:x   5 //a:x (present or absent)   6 //:top
+    -> list of (files {pkg: source}, d (index lists over 1..6, 7 = undefined), target index, identifier of the target)"""
+    out = []
+    import itertools
+    for a_has_x in (False, True):
+        for bx_back in (False, True):            # //b:x depends on //a:last (a cycle only if :x in a were to mean //b:x)
+            for first_uses in (False, True):     # //a:first already uses ":x" (warms whatever the loader remembers)
+                for order in itertools.permutations([1, 2, 3]):
+                    ax = 5 if a_has_x else 7
+                    d = [[ax] if first_uses else [], [4], [ax], [3] if bx_back else [], [], list(order)]
+                    if not a_has_x:
+                        d[4] = []
+                    a_src = "run_command(name='first', run='true', deps=%r)\n" % ([":x"] if first_uses else [])
+                    a_src += "run_command(name='last', run='true', deps=[':x'])\n"
+                    if a_has_x:
+                        a_src += "run_command(name='x', run='true')\n"
+                    b_src = "run_command(name='mid', run='true', deps=[':x'])\nrun_command(name='x', run='true', deps=%r)\n" % (
+                        ["//a:last"] if bx_back else [])
+                    ident = {1: "//a:first", 2: "//b:mid", 3: "//a:last"}
+                    top = "group(name='top', deps=%r)\n" % [ident[i] for i in order]
+                    if not a_has_x:
+                        # task 5 does not exist: keep it out of the graph (no edges to or from it)
+                        pass
+                    out.append(({"a": a_src, "b": b_src, "": top}, d, 6, "//:top"))
+    return out
+
+
+def named_worker(job):
+    files, d_, t, tgt, k = job
+    warnings.simplefilter("ignore")
+    dd = tempfile.mkdtemp(prefix="cvc14n_", dir=C.scratch_root())
+    try:
+        root = os.path.join(dd, "p")
+        os.makedirs(root)
+        with open(os.path.join(root, "cond_config.toml"), "w") as f:
+            f.write("disable_git = true\n")
+        for pkg, src in files.items():
+            os.makedirs(os.path.join(root, pkg), exist_ok=True)
+            with open(os.path.join(root, pkg, "COND"), "w") as f:
+                f.write(src)
+        code, err = mini_cli(["--debug", "run", "--check", tgt], root)
+        check = classify(code, err)
+        if "HarnessTimeout" in err:
+            check = "hang"
+        return {"id": k, "d": d_, "t": t, "check": check, "run": check, "spawnsOnError": 0, "hasProj": False, "proj": "", "roots": [],
+                "stderr": err[-300:] if check.startswith(("other", "crash")) else "", "files": files}
+    finally:
+        shutil.rmtree(dd, ignore_errors=True)
+
+
 class HarnessTimeout(BaseException):
     pass
 
@@ -227,14 +283,19 @@ def fk_worker(job):
         shutil.rmtree(d, ignore_errors=True)
 
 
-def judge(rows, timeout=1800):
+def judge(rows, timeout=1800, nd=ND):
+    cfgname = "Loader_Trace.cfg"
+    if nd != ND:
+        cfgname = "_gen_Loader_Trace_%d.cfg" % nd
+        with open(os.path.join(C.SPECS, cfgname), "w") as f:
+            f.write("CONSTANT ND = %d\nCONSTANT MaxLen = 3\nCONSTANT Dups = TRUE\nSPECIFICATION TSpec\nINVARIANT Judge\nCHECK_DEADLOCK FALSE\n" % nd)
     with C.Scratch("ljudge") as d:
         f = os.path.join(d, "rows.ndjson")
         with open(f, "w") as fh:
             for r in rows:
                 fh.write(json.dumps({k: r[k] for k in ("id", "d", "t", "check", "run", "spawnsOnError", "hasProj", "proj",
                                                        "roots")}) + "\n")
-        res = C.run_tlc("Loader_Trace.tla", cfg="Loader_Trace.cfg", workers=1, timeout=timeout, env={"TRACE_FILE": f})
+        res = C.run_tlc("Loader_Trace.tla", cfg=cfgname, workers=1, timeout=timeout, env={"TRACE_FILE": f})
     out = {}
     for v in C.tlc_printed_json(res):
         if isinstance(v, dict) and "id" in v:
@@ -300,6 +361,22 @@ def main(tier):
                               r["d"], r["t"], r["check"], r["run"], r["proj"], r["roots"], r["stderr"]))
         elif v["model"] != r["check"]:
             rep.drift.append("deps=%s target=%d: code says %s, Loader.tla's algorithm says %s" % (r["d"], r["t"], r["check"], v["model"]))
+    # names reused across packages (six tasks, judged by the same declarative verdicts with ND = 6)
+    nps = named_projects()
+    nrows = C.fork_map(named_worker, [(f_, d_, t_, tgt_, 10 ** 6 + i) for i, (f_, d_, t_, tgt_) in enumerate(nps)], timeout=120)
+    nrows = [r for r in nrows if r is not None and "_error" not in r and "_timeout" not in r]
+    if len(nrows) != len(nps):
+        rep.machinery("named-project family: %d of %d projects observed" % (len(nrows), len(nps)))
+    elif nrows:
+        nverd, _ntr = judge(nrows, nd=NAMED_ND)
+        for r in nrows:
+            bad = sorted(set(nverd[r["id"]]["viol"]) & CLAUSES)
+            if bad:
+                rep.violation({"clause": bad[0], "observed": r["check"], "proj": "", "family": "names reused across packages"},
+                              {"named": {"files": r["files"], "d": r["d"], "t": r["t"]}, "k": r["id"]},
+                              "names reused across packages: %s ; graph deps=%s target=t%d: cond run --check reported %r %s" % (
+                                  {k_: v_.replace("\n", " ; ") for k_, v_ in r["files"].items()}, r["d"], r["t"], r["check"], r["stderr"]))
+        rep.cov["named_projects"] = len(nrows)
     rep.cov.update({
         "states": mc.distinct, "transitions": mc.generated, "traces_validated_against_impl": len(rows),
         "evaluations": len(rows) + len(sample), "distinct_nontrivial": nontriv,
@@ -320,9 +397,14 @@ def replay(path):
     with open(path) as f:
         body = json.load(f)
     RC.warm()
-    inst, k = body["scenario"]["inst"], body["scenario"]["k"]
-    rows = C.fork_map(chunk_worker, [([inst], k, True)])[0]
-    verdicts, _ = judge(rows)
+    if "named" in body["scenario"]:
+        nm = body["scenario"]["named"]
+        rows = C.fork_map(named_worker, [(nm["files"], nm["d"], nm["t"], "//:top", body["scenario"]["k"])])
+        verdicts, _ = judge(rows, nd=NAMED_ND)
+    else:
+        inst, k = body["scenario"]["inst"], body["scenario"]["k"]
+        rows = C.fork_map(chunk_worker, [([inst], k, True)])[0]
+        verdicts, _ = judge(rows)
     print(json.dumps(rows[0]), verdicts[rows[0]["id"]])
     bad = sorted(set(verdicts[rows[0]["id"]]["viol"]) & CLAUSES)
     if bad:
